@@ -283,6 +283,22 @@ def run(R: vlib.Run):
                 if r.header.nbits != 32 or not same_bits(back.data, inmem):
                     fail("to_file-values", "block read back differs in values / shape / order", dict(case, got=small(back.data))); continue
                 check_meta(R, "to_file-meta", r.header, tsamp, tstart, dm, case) or fired.add("to_file-meta")
+                # a block dedispersed in memory and then written: the file records the DM that was applied (the block's DM), samples as held
+                if nchans >= 2 and rep % 2 == 0:
+                    dm2 = round(rng.uniform(1.0, 300.0), 3)
+                    case2 = dict(case, path="FilterbankBlock.dedisperse(dm).to_file", applied_dm=dm2)
+                    R.case(("to_file-dedispersed", dt, nchans, nsamps, dm2), regime="to_file")
+                    try:
+                        blk2 = FilterbankBlock(data, hdr, dm=dm).dedisperse(dm2)
+                        held = blk2.data.copy()
+                        blk2.to_file(path)
+                        r2 = FilReader(path)
+                        back2 = r2.read_block(0, r2.header.nsamples)
+                    except Exception as e:  # noqa: BLE001
+                        fail("to_file-values", f"dedisperse(dm).to_file / re-read raised {type(e).__name__}: {e}", case2); continue
+                    if r2.header.nsamples != held.shape[1] or not same_bits(back2.data, held):
+                        fail("to_file-values", "dedispersed block read back differs in values / shape / order", dict(case2, got=small(back2.data))); continue
+                    check_meta(R, "to_file-meta", r2.header, tsamp, tstart, dm2, case2) or fired.add("to_file-meta")
 
         # ---------------------------------------------------------------------------------------------
         # 3. time series (.tim, .dat/.inf) and Fourier series (.spec, .fft/.inf)
